@@ -388,19 +388,7 @@ func (fr *frame) conv(t_dst, t_src types.Type, x value) value {
 			case db.Info()&types.IsFloat != 0:
 				return fr.i.symToFloat(fr, xv, dk)
 			case db.Kind() == types.String:
-				// string(rune): only ASCII supported symbolically
-				c := fr.i.ctx
-				t, _ := fr.i.term(x)
-				var small *sym.Term
-				if t.Sort == sym.SInt {
-					small = c.And(c.Le(c.Int(0), t), c.Lt(t, c.Int(0x80)))
-				} else {
-					small = c.Ult(t, c.BV(0x80, t.W))
-				}
-				if fr.branch(small) {
-					return symstr{fr.i.symConvInt(fr, xv, types.Uint8)}
-				}
-				panic(unsupported("string(rune) of symbolic non-ASCII rune"))
+				return fr.runeToString(xv)
 			}
 		}
 		panic(unsupported(fmt.Sprintf("conversion of symbolic %v to %s", xv.k, t_dst)))
@@ -629,4 +617,53 @@ func cloneCells(src []value) []value {
 		out[i] = cloneAgg(v)
 	}
 	return out
+}
+
+// runeToString implements string(r) for a symbolic integer r: UTF-8 encoding, case-split on the
+// encoded length (bit-vector mode only beyond ASCII).
+func (fr *frame) runeToString(x sv) value {
+	i := fr.i
+	c := i.ctx
+	r := i.symConvInt(fr, x, types.Int32)
+	lt := func(k int32) bool {
+		t, _ := i.term(r)
+		kt, _ := i.term(k)
+		if t.Sort == sym.SInt {
+			return fr.branch(c.Lt(t, kt))
+		}
+		return fr.branch(c.Slt(t, kt))
+	}
+	if lt(0) {
+		return "\uFFFD"
+	}
+	if lt(0x80) {
+		return normStr([]value{i.toByte(fr, r)})
+	}
+	if i.math {
+		panic(unsupported("string(rune) of a symbolic non-ASCII rune in math mode"))
+	}
+	op := func(tok token.Token, a value, b int32) value { return fr.binop(tok, nil, a, b) }
+	cont := func(shift int32) value {
+		return i.toByte(fr, op(token.OR, op(token.AND, op(token.SHR, r, shift), 0x3F), 0x80))
+	}
+	if lt(0x800) {
+		return normStr([]value{i.toByte(fr, op(token.OR, op(token.SHR, r, 6), 0xC0)), cont(0)})
+	}
+	if !lt(0xD800) && lt(0xE000) {
+		return "\uFFFD"
+	}
+	if lt(0x10000) {
+		return normStr([]value{i.toByte(fr, op(token.OR, op(token.SHR, r, 12), 0xE0)), cont(6), cont(0)})
+	}
+	if lt(0x110000) {
+		return normStr([]value{i.toByte(fr, op(token.OR, op(token.SHR, r, 18), 0xF0)), cont(12), cont(6), cont(0)})
+	}
+	return "\uFFFD"
+}
+
+func (i *interpreter) toByte(fr *frame, v value) value {
+	if s, ok := v.(sv); ok {
+		return i.symConvInt(fr, s, types.Uint8)
+	}
+	return uint8(asInt64(v))
 }
